@@ -30,7 +30,7 @@ type scanner struct {
 }
 
 func (s *scanner) setPaging(query ast.Query) {
-	if query.GetSkip() == nil {
+	if query.GetSkip() == nil || *query.GetSkip() < 0 {
 		query.SetSkip(0)
 	}
 	s.targetOffset = *query.GetSkip()
@@ -237,6 +237,9 @@ func (scanner *sortingScanner) ScanCursor(tx *bbolt.Tx, cursorProvider ast.SetCu
 	results := &llrb.Tree{}
 	isChildStore := scanner.store.IsChildStore()
 	maxResults := scanner.targetOffset + scanner.targetLimit
+	if maxResults < 0 { // overflow: skip combined with an unbounded limit
+		maxResults = math.MaxInt64
+	}
 	for cursor.IsValid() {
 		current := cursor.Current()
 		cursor.Next()
